@@ -141,7 +141,13 @@ func (u *Unit) exec(fr *Frame, st *State, instr ssa.Instruction) {
 		}
 		r := u.newRef(st, in.Comment)
 		p := mkptr(r, IntLit(0))
+		if at, ok := types.Unalias(elem).Underlying().(*types.Array); ok {
+			u.zeroArray(st, at.Elem(), r)
+			fr.regs[in] = p
+			return
+		}
 		u.storeVal(st, elem, p, u.zeroVal(elem))
+		st.locals = append(st.locals, &localObj{p, elem})
 		fr.regs[in] = p
 	case *ssa.UnOp:
 		fr.regs[in] = u.unop(fr, st, in)
@@ -180,6 +186,16 @@ func (u *Unit) exec(fr *Frame, st *State, instr ssa.Instruction) {
 				u.assume(st, And(Le(IntLit(0), idx), Lt(idx, slen(s))))
 			}
 			fr.regs[in] = u.ctx.Define("eaddr", mkptr(sarr(s), Add(soff(s), idx)))
+		case *types.Pointer:
+			at, ok := types.Unalias(ptrElem(in.X.Type())).Underlying().(*types.Array)
+			if !ok {
+				unsupp("IndexAddr on %s", in.X.Type())
+			}
+			p := u.term(fr, st, in.X)
+			if u.checks["index"] {
+				u.addObl(st, "panic/index", fmt.Sprintf("array index in range: %s", u.srcOf(in)), in.Pos(), And(Le(IntLit(0), idx), Lt(idx, IntLit(at.Len()))))
+			}
+			fr.regs[in] = u.ctx.Define("eaddr", mkptr(parr(p), Add(pidx(p), idx)))
 		default:
 			unsupp("IndexAddr on %s", in.X.Type())
 		}
@@ -212,7 +228,9 @@ func (u *Unit) exec(fr *Frame, st *State, instr ssa.Instruction) {
 	case *ssa.MakeMap:
 		r := u.newRef(st, "map")
 		mt := in.Type().Underlying().(*types.Map)
-		u.mapInit(st, mt, r)
+		if u.mapModelled(mt) {
+			u.mapInit(st, mt, r)
+		}
 		fr.regs[in] = r
 	case *ssa.MakeChan:
 		fr.regs[in] = u.newRef(st, "chan")
@@ -223,6 +241,7 @@ func (u *Unit) exec(fr *Frame, st *State, instr ssa.Instruction) {
 		}
 		fr.regs[in] = cv
 	case *ssa.MakeInterface:
+		u.escape(st, u.val(fr, st, in.X))
 		fr.regs[in] = u.makeIface(st, u.val(fr, st, in.X), in.X.Type())
 	case *ssa.TypeAssert:
 		fr.regs[in] = u.typeAssert(fr, st, in)
@@ -411,13 +430,20 @@ func (u *Unit) store(fr *Frame, st *State, addrV ssa.Value, v Val, pos token.Pos
 }
 
 func (u *Unit) storeTo(st *State, addr Val, elem types.Type, v Val, pos token.Pos) {
+	if _, isCell := addr.(*CellAddr); !isCell {
+		u.escape(st, v) // a pointer stored into memory becomes reachable from there
+	}
 	switch a := addr.(type) {
 	case *CellAddr:
 		st.cells[a.Alloc] = v
 	case *AddrVal:
 		tv, ok := v.(*Term)
 		if !ok {
-			unsupp("store of %T into field", v)
+			if a.Elem == SFn {
+				tv = u.reifyFn(v)
+			} else {
+				unsupp("store of %T into field", v)
+			}
 		}
 		u.checkWrite(st, a.Map, a.Ptr, pos, "field store")
 		u.storeLoc(st, a.Map, a.Elem, a.Ptr, tv)
@@ -524,7 +550,7 @@ func (u *Unit) binop(st *State, op token.Token, xv, yv Val, xt types.Type, pos t
 			} else {
 				u.assume(st, Not(Eq(y, IntLit(0))))
 			}
-			return u.ctx.Name("quo", App(SInt, "tdiv", x, y))
+			return u.quotient(x, y)
 		case token.REM:
 			if u.checks["div"] {
 				u.addObl(st, "panic/div", "integer modulus is not zero", pos, Not(Eq(y, IntLit(0))))
@@ -563,6 +589,36 @@ func (u *Unit) binop(st *State, op token.Token, xv, yv Val, xt types.Type, pos t
 	}
 	unsupp("binary %s on %s", op, x.Sort)
 	return nil
+}
+
+type divRec struct{ x, y, q *Term }
+
+// quotient names x/y (Go's truncating division) and, for a symbolic divisor,
+// asserts ground instances of facts the solvers do not find on their own:
+// the Euclidean bounds of the quotient and monotonicity against every earlier
+// quotient with the same divisor.
+func (u *Unit) quotient(x, y *Term) *Term {
+	q := u.ctx.Name("quo", App(SInt, "tdiv", x, y))
+	if _, isConst := smallConstBig(y); isConst {
+		return q
+	}
+	ypos := Gt(y, IntLit(0))
+	qy := Mul(q, y)
+	u.ctx.Axiom(Implies(And(ypos, Ge(x, IntLit(0))), And(Le(qy, x), Lt(x, Add(qy, y)), Ge(q, IntLit(0)))))
+	u.ctx.Axiom(Implies(And(ypos, Lt(x, IntLit(0))), And(Ge(qy, x), Gt(x, Sub(qy, y)), Le(q, IntLit(0)))))
+	for _, r := range u.divs {
+		if r.y.S != y.S {
+			continue
+		}
+		u.ctx.Axiom(Implies(ypos, And(Implies(Le(r.x, x), Le(r.q, q)), Implies(Le(x, r.x), Le(q, r.q)))))
+	}
+	u.divs = append(u.divs, divRec{x, y, q})
+	return q
+}
+
+func smallConstBig(t *Term) (*big.Int, bool) {
+	n, ok := new(big.Int).SetString(t.S, 10)
+	return n, ok
 }
 
 func smallConst(t *Term) (int, bool) {
@@ -704,6 +760,23 @@ func (u *Unit) sliceOp(fr *Frame, st *State, in *ssa.Slice) Val {
 		lo = IntLit(0)
 	}
 	switch tt := xt.(type) {
+	case *types.Pointer:
+		if at, ok := types.Unalias(tt.Elem()).Underlying().(*types.Array); ok {
+			p := u.term(fr, st, in.X)
+			n := IntLit(at.Len())
+			if in.High != nil {
+				hi = u.toInt(u.term(fr, st, in.High))
+			} else {
+				hi = n
+			}
+			goal := And(Le(IntLit(0), lo), Le(lo, hi), Le(hi, n))
+			if u.checks["slice"] {
+				u.addObl(st, "panic/slice", "array slice bounds in range: "+u.srcOf(in), in.Pos(), goal)
+			} else {
+				u.assume(st, goal)
+			}
+			return u.ctx.Define("sl", mkslice(parr(p), Add(pidx(p), lo), Sub(hi, lo), Sub(n, lo)))
+		}
 	case *types.Slice:
 		s := u.term(fr, st, in.X)
 		if in.High != nil {
@@ -940,6 +1013,7 @@ func (u *Unit) mapGet(st *State, name string, sort Sort) *Term {
 	t := u.ctx.Const(fmt.Sprintf("%s@%d", name, st.epoch), sort)
 	st.heap[name] = t
 	u.rawSorts[name] = sort
+	u.linkBase(st, name, t)
 	return t
 }
 
@@ -952,8 +1026,20 @@ func (u *Unit) mapInit(st *State, mt *types.Map, r *Term) {
 	st.heap[ln] = u.ctx.Define(ln, Store(l, r, IntLit(0)))
 }
 
+func (u *Unit) mapModelled(mt *types.Map) bool {
+	_, ok1 := u.sortOf(mt.Key())
+	_, ok2 := u.sortOf(mt.Elem())
+	return ok1 && ok2
+}
+
 func (u *Unit) mapUpdate(fr *Frame, st *State, in *ssa.MapUpdate) {
 	mt := in.Map.Type().Underlying().(*types.Map)
+	if !u.mapModelled(mt) {
+		u.checkMapWrite(st, u.term(fr, st, in.Map), in.Pos())
+		u.escape(st, u.val(fr, st, in.Value))
+		u.note("map with structured key/value " + mt.String() + ": contents not modelled (reads are unconstrained)")
+		return
+	}
 	dom, val, ln, ks, vs := u.mapNames(mt)
 	m := u.term(fr, st, in.Map)
 	k := u.term(fr, st, in.Key)
@@ -978,6 +1064,9 @@ func (u *Unit) checkMapWrite(st *State, m *Term, pos token.Pos) {
 			if it.Map == "map" {
 				alts = append(alts, Eq(m, it.Ptr))
 			}
+			if it.Map == "*allocated*" {
+				alts = append(alts, Ge(App(SInt, "birth", m), u.entry.now))
+			}
 		}
 		u.addObl(st, "frame", "map write allowed by "+fs.why, pos, Or(alts...))
 	}
@@ -985,6 +1074,13 @@ func (u *Unit) checkMapWrite(st *State, m *Term, pos token.Pos) {
 
 func (u *Unit) lookup(fr *Frame, st *State, in *ssa.Lookup) Val {
 	if mt, ok := in.X.Type().Underlying().(*types.Map); ok {
+		if !u.mapModelled(mt) {
+			v := u.freshVal(st, mt.Elem(), "mapval")
+			if in.CommaOk {
+				return &TupleVal{Elems: []Val{v, u.ctx.FreshConst("has", SBool)}}
+			}
+			return v
+		}
 		dom, val, _, ks, vs := u.mapNames(mt)
 		m := u.term(fr, st, in.X)
 		k := u.term(fr, st, in.Index)
@@ -1022,6 +1118,9 @@ func (u *Unit) next(fr *Frame, st *State, in *ssa.Next) Val {
 		return &TupleVal{Elems: []Val{okc, i, r}}
 	}
 	mt := it.t.Underlying().(*types.Map)
+	if !u.mapModelled(mt) {
+		return &TupleVal{Elems: []Val{okc, u.freshVal(st, mt.Key(), "next_k"), u.freshVal(st, mt.Elem(), "next_v")}}
+	}
 	dom, val, _, ks, vs := u.mapNames(mt)
 	m := it.x.(*Term)
 	k := u.ctx.FreshConst("next_k", ks)
@@ -1047,7 +1146,7 @@ func (u *Unit) recv(fr *Frame, st *State, in *ssa.UnOp) Val {
 }
 
 func (u *Unit) send(fr *Frame, st *State, in *ssa.Send) {
-	_ = u.val(fr, st, in.X)
+	u.escape(st, u.val(fr, st, in.X))
 	u.note("channel send: no effect on modelled state")
 }
 
@@ -1075,13 +1174,29 @@ func (u *Unit) goStmt(fr *Frame, st *State, in *ssa.Go) {
 	// contract); for the spawner the statement has no effect on modelled state
 	// except that the callee's precondition must hold here.
 	c := in.Common()
+	defer func() {
+		// the goroutine runs concurrently from here on: what it can reach has escaped
+		u.escape(st, u.val(fr, st, c.Value))
+		for _, a := range c.Args {
+			u.escape(st, u.val(fr, st, a))
+		}
+	}()
 	if fn := c.StaticCallee(); fn != nil {
 		if ct := u.prog.specs.Contracts[funcKey(fn)]; ct != nil {
 			var args []Val
 			for _, a := range c.Args {
 				args = append(args, u.val(fr, st, a))
 			}
+			saved := u.fvCall
+			if mc, ok := c.Value.(*ssa.MakeClosure); ok {
+				var bind []Val
+				for _, b := range mc.Bindings {
+					bind = append(bind, u.val(fr, st, b))
+				}
+				u.fvCall = closureFV(fn, bind)
+			}
 			u.checkPre(fr, st, ct, fn.Signature, args, in.Pos(), funcKey(fn), nil)
+			u.fvCall = saved
 		}
 	}
 	u.note("go statement: spawned goroutine not executed in the spawner's unit")
